@@ -17,6 +17,11 @@ parameters); applied by the check to the *implementation's own* output.
 namespace VelaVerif.MlwSpec
 open VelaVerif.Mlw VelaVerif.Reorder
 
+/-- the signed 9-bit sign/magnitude range of the weight stream; anything else must be *rejected* by an encoder -/
+def WeightsInRange (src : List Int) : Prop := ∀ v ∈ src, -255 ≤ v ∧ v ≤ 255
+
+def weightsInRange (src : List Int) : Bool := src.all fun v => decide (-255 ≤ v) && decide (v ≤ 255)
+
 /-- `l = expected ++ zeros` -/
 def ZeroPadded (l expected : List Int) : Prop := ∃ k, l = expected ++ List.replicate k 0
 
